@@ -296,6 +296,7 @@ def run_item(item):
     fmt = G.build_format(clean)
     res = {"lines": 0, "nontrivial": 0, "asg": 0, "feat": {}, "viol": {}, "sample": None}
     feat = res["feat"]
+    best_sample = 0
     for ai, asg in enumerate(_assignments(spec, params)):
         if ai % nshards != shard:
             continue
@@ -313,8 +314,10 @@ def run_item(item):
                 res["nontrivial"] += 1
             for r in roles:
                 feat[r[0]] = feat.get(r[0], 0) + 1
-            if res["sample"] is None and n_opt >= 2 and n_pos >= 2:
-                res["sample"] = {"part": pi, "tokens": toks, "assignment": exp["options(False)"], "arguments": exp["arguments(False)"]}
+            score = min(n_opt, 2) + min(n_pos, 2)
+            if score > best_sample:
+                best_sample = score
+                res["sample"] = {"score": score, "tokens": toks, "options": exp["options(False)"], "arguments": exp["arguments(False)"]}
             for v in judge(fmt, clean, asg, toks, exp):
                 rank = [len(toks), sum(len(t) for t in toks), pi, fi, ai]
                 old = res["viol"].get(v["sig"])
@@ -350,6 +353,7 @@ def main():
     feat = {}
     per_part = {}
     best = {}
+    sampled = {}
     for it, r in zip(items, results):
         pname = ps[it[0]][0]
         pp = per_part.setdefault(pname, {"formats": nformats[pname], "assignments": 0, "lines": 0, "nontrivial": 0})
@@ -363,10 +367,15 @@ def main():
         for sig, (rank, v) in r["viol"].items():
             if sig not in best or rank < best[sig][0]:
                 best[sig] = (rank, v)
-        if r["sample"]:
-            rep.sample(r["sample"], cap=6)
+        if r["sample"] and r["sample"]["score"] > sampled.get(pname, (0, None))[0]:  # one written-out case per part
+            sampled[pname] = (r["sample"]["score"], dict(r["sample"], part=pname))
     for sig in sorted(best, key=lambda s: best[s][0]):
         rep.violation(best[sig][1])
+    for pname in per_part:
+        if pname in sampled:
+            smp = sampled[pname][1]
+            smp.pop("score")
+            rep.sample(smp, cap=8)
     for pname, pp in per_part.items():
         rep.part(pname, **pp)
     rep.set("formats", sum(nformats.values()))
